@@ -128,6 +128,21 @@ def enumerate_candidates(spec, wide=True, limit=None, task_lo=None, task_hi=None
             yield cand
 
 
+def grid_size(spec, wide=False):
+    """number of candidates of the (non-sampled) grid"""
+    H = spec["problem"].get("horizon")
+    n = 1
+    for t in spec["tasks"]:
+        n *= len(task_options(t, H, wide))
+    for r in spec.get("requirements", []):
+        sel = rs.selection_spec(spec, r["resource"])
+        if sel:
+            n *= len(selection_options(sel, wide))
+        if r.get("dynamic"):
+            n *= (H + 3) * (H + 4) // 2
+    return n
+
+
 def classify(spec, cand):
     """('valid' | 'invalid' | 'band', report) under refsem"""
     rep, _P = rs.evaluate_candidate(spec, cand)
